@@ -1,4 +1,5 @@
 CONSTANTS
+  Logs = TRUE
   RecordHist = FALSE
   MaxInt = 0
   AllowDie = TRUE
@@ -32,3 +33,4 @@ PROPERTY A_C02_RunAfterDeps
 PROPERTY A_C02_StartAfterSubmit
 PROPERTY A_C03_OutcomeStable
 PROPERTY A_C17_OnlyNew
+INVARIANT A_C19_ExactlyOnce
